@@ -613,6 +613,17 @@ class World:
                 if a.info in ("std::option::Option::ok_or", "std::option::Option::ok_or_else") and which == "ok":
                     keep.extend(self._ok_alts(a.args[0], "some", depth + 1, expand_ws, True))
                     continue
+                # x.map(f) / x.and_then(f): the closure applied to the payload of x
+                if a.info in ("std::result::Result::map", "std::option::Option::map", "std::result::Result::and_then", "std::option::Option::and_then") \
+                        and len(a.args) == 2 and a.args[1].op == "closure" and \
+                        ((which == "ok") == a.info.startswith("std::result")):
+                    inner_payload = simplify(E("proj", (a.args[0],), which))
+                    r = self.apply_closure(a.args[1], [inner_payload])
+                    if a.info.endswith("::map"):
+                        keep.append((r, True))
+                    else:
+                        keep.extend(self._ok_alts(r, which, depth + 1, expand_ws, True))
+                    continue
             if a.op == "adt" and a.info[1] in ("Ok", "Err", "Some", "None") and a.info[0].split("::")[-1] in ("Result", "Option"):
                 if (which == "ok" and a.info[1] == "Ok") or (which == "some" and a.info[1] == "Some"):
                     keep.append((a.args[0], True))
